@@ -36,7 +36,7 @@ class Mode:
 
     def __init__(self, name, tocks=True, rets=True, raises=False, kbd=False, enterfail=False,
                  enterdone=False, ext=(), rem=(), kinds=(0, 1, 2, 3, 4), cfg=True, horizon=3,
-                 limits=(None, 2.0, 2.5, 0.3), always=False, stale_done=False, xtocks=False, callcfg=False, tockset=(), handdrive=False, rerun=False, prerun=False):
+                 limits=(None, 2.0, 2.5, 0.3), always=False, stale_done=False, xtocks=False, callcfg=False, tockset=(), handdrive=False, rerun=False, prerun=False, sysexit=False, stale=False):
         self.name = name
         self.tocks, self.rets, self.raises, self.kbd = tocks, rets, raises, kbd
         self.enterfail, self.enterdone = enterfail, enterdone
@@ -48,6 +48,8 @@ class Mode:
         self.callcfg = callcfg     # limit and start tyme may be given to do()/ado() instead of the constructor
         self.tockset = tuple(tockset)   # with tocks=False: the only yielded tocks offered (multiples of T), e.g. "not due at the stop"
         self.prerun = prerun            # the same doer objects may have been run to completion before, by another Doist on another tyme base
+        self.stale = stale              # the scheduler may hold a deed left over from before the run (extend() on the idle Doist); a run given its doers starts from those only
+        self.sysexit = sysexit          # a doer may call sys.exit() in its recur
         self.rerun = rerun              # the same scheduler may be run a second time, without arguments, right after the first run
         self.handdrive = handdrive      # the run may be driven by hand: enter(doers=) / recur(deeds=) / exit(deeds=) on an explicit deque
 
@@ -136,6 +138,8 @@ class World:
             a.append(("raise", "V"))
         if m.kbd and kind in (0, 1):
             a.append(("raise", "K"))
+        if m.sysexit:
+            a.append(("raise", "S"))
         if not last and not leaf.fresh:
             sibs = self.siblings(leaf)
             i = sibs.index(leaf.name)
@@ -351,6 +355,8 @@ class LeafBase:
         if act[0] == "raise":
             if act[1] == "K":
                 raise KeyboardInterrupt()
+            if act[1] == "S":
+                raise SystemExit(3)
             raise ValueError("recur of %s raises" % self.name)
         if act[0] == "ext":
             w.do_ext(self, act[1])
@@ -492,6 +498,19 @@ def make_leaf(w, name, kind, horizon, fresh=False):
     return leaf
 
 
+class StaleDoer(doing.Doer):
+    """never finishes on its own, logs nothing; counts its recurs on the world"""
+
+    def __init__(self, w):
+        super().__init__()
+        self.w = w
+        self.vfname = "~stale"
+
+    def recur(self, tyme):
+        self.w.stale_recurs = getattr(self.w, "stale_recurs", 0) + 1
+        return False
+
+
 class LoggedDoDoer(doing.DoDoer):
     def __init__(self, w, name, always, doers):
         super().__init__(doers=doers, always=always, tock=0.0)
@@ -595,7 +614,7 @@ def config(w, ch, shape, sweep=False):
         lims = [x for x in SWEEP_LIMITS if x is not None] if shape_has_always(shape) else SWEEP_LIMITS
         lim = ch.pick(lims, "cfg:limit", cost=0)
         mult = ch.pick([True, False], "cfg:limit-in-tocks", cost=0)
-        via = ch.pick(["ctor", "call"] + (["call+rerun"] if m.rerun else []) + (["prerun"] if m.prerun else []), "cfg:via", cost=0) if (m.callcfg or m.prerun) else "ctor"
+        via = ch.pick(["ctor", "call"] + (["call+rerun"] if m.rerun else []) + (["prerun"] if m.prerun else []) + (["call+stale"] if m.stale else []), "cfg:via", cost=0) if (m.callcfg or m.prerun) else "ctor"
         return T, start, (lim * T if (lim is not None and mult) else lim), via
     if m.cfg and w.table is None:
         T = ch.pick([1.0, 0.25, 0.1], "cfg:tock")
@@ -604,7 +623,7 @@ def config(w, ch, shape, sweep=False):
         if shape_has_always(shape):
             lims = [x for x in lims if x is not None] or [2.0]
         lim = ch.pick(lims, "cfg:limit")
-        pre = ["prerun"] if m.prerun else []
+        pre = (["prerun"] if m.prerun else []) + (["call+stale"] if m.stale and m.callcfg else [])
         via = ch.pick(["ctor", "call"] + (["call+rerun"] if m.rerun else []) + pre, "cfg:via") if m.callcfg else (
             ch.pick(["ctor", "hand"] + pre, "cfg:via") if m.handdrive else (ch.pick(["ctor"] + pre, "cfg:via") if pre else "ctor"))
     else:
@@ -646,11 +665,16 @@ def run(job, ch, mode=None, table=None, cfg=None, kinds=None, runner=None):
         prerun(w, doers, start)
     # the sign of a limit carries no meaning (documented as a magnitude by abs() at every entry point)
     sgn = -1.0 if (w.mode.callcfg and lim is not None and w.table is None and ch is not None and ch.pick([False, True], "cfg:neglimit")) else 1.0
-    if via in ("call", "call+rerun"):     # constructor holds other (stale) values; the run's limit and start tyme are given to do()/ado()
+    if via in ("call", "call+rerun", "call+stale"):     # constructor holds other (stale) values; the run's limit and start tyme are given to do()/ado()
         # "no limit" for this run is said with limit=0 (None would keep the constructor's)
         d = LoggedDoist(w, tock=T, real=False, limit=(3 * T if lim is None else lim + 3 * T), doers=doers, tyme=start + 3 * T + 0.5)
         w.call_kwargs = dict(limit=(0.0 if lim is None else sgn * lim), tyme=start)
         w.second_run = (via == "call+rerun")   # then once more without arguments: what the first call stored is what counts
+        if via == "call+stale":
+            # a deed left over in the idle scheduler (somebody extend()ed it before the run): a run that is given its doers
+            # starts from those doers only
+            d.extend([StaleDoer(w)])
+            w.call_kwargs["doers"] = doers
     else:
         d = LoggedDoist(w, tock=T, real=False, limit=(lim if lim is None else sgn * lim), doers=doers, tyme=start)
         w.call_kwargs = {}
